@@ -105,22 +105,47 @@ func (g *Graph) Project() Project {
 			b.WriteString("import \"std/io\";\n")
 		}
 		var terms []string
+		var via strings.Builder
+		// every module also exports a type; an importer names it in a signature,
+		// which only resolves when the dependency was processed first
+		useType := func(q string, j int) {
+			fmt.Fprintf(&via, "fn Via%s() -> %s::P {\n    return %s::Mk();\n}\n\n", q, q, q)
+			terms = append(terms, fmt.Sprintf("Via%s().X - %d", q, nodeVal(j)))
+			// and the types j's own signatures take from ITS dependencies (two hops away)
+			for k := 0; k < g.N; k++ {
+				kn := nodeName(k)
+				switch g.Edges[j][k] {
+				case 1:
+					terms = append(terms, fmt.Sprintf("%s::Via%s().X - %d", q, kn, nodeVal(k)))
+				case 2:
+					terms = append(terms, fmt.Sprintf("%s::Viax%s().X - %d", q, kn, nodeVal(k)))
+				case 3:
+					terms = append(terms, fmt.Sprintf("%s::Via%s().X - %d", q, kn, nodeVal(k)), fmt.Sprintf("%s::Viax%s().X - %d", q, kn, nodeVal(k)))
+				}
+			}
+		}
 		for j := 0; j < g.N; j++ {
 			n := nodeName(j)
 			switch g.Edges[i][j] {
 			case 1:
 				fmt.Fprintf(&b, "import \"p/%s\";\n", n)
 				terms = append(terms, n+"::V()")
+				useType(n, j)
 			case 2:
 				fmt.Fprintf(&b, "import \"p/%s\" as x%s;\n", n, n)
 				terms = append(terms, "x"+n+"::V()")
+				useType("x"+n, j)
 			case 3:
 				fmt.Fprintf(&b, "import \"p/%s\";\n", n)
 				fmt.Fprintf(&b, "import \"p/%s\" as x%s;\n", n, n)
 				terms = append(terms, n+"::V()", "x"+n+"::V()")
+				useType(n, j)
+				useType("x"+n, j)
 			}
 		}
-		fmt.Fprintf(&b, "\nfn V() -> i64 {\n    return %d", nodeVal(i))
+		fmt.Fprintf(&b, "\ntype P struct {\n    .X: i64\n};\n\nfn Mk() -> P {\n    return { .X = %d } as P;\n}\n\n", nodeVal(i))
+		b.WriteString(via.String())
+		fmt.Fprintf(&b, "fn V() -> i64 {\n    return %d", nodeVal(i))
 		for _, t := range terms {
 			b.WriteString(" + " + t)
 		}
